@@ -41,6 +41,13 @@ PREFIXED = ["python-gapic-name=my_lib", "python-gapic-name=Other Lib", "python-g
             "python-gapic-transport=rest", "python-gapic-metadata", "python-gapic-", "python-gapic-name", "python-gapic-other=z"]
 UNKNOWN = ["foo", "foo=bar", "paths=source_relative", "Mgoogle/api/x.proto=pkg", "go-gapic-package=a;b", "", "x y", "FOO=1",
            "Metadata", "transport ", "retry_config=zz", "plugins=grpc", "=", "=v", "k="]
+# unknown options whose KEY merely contains the marker python-gapic- in the middle, followed by every recognised option name
+MIDMARKER = ["legacy-python-gapic-name=bookstore", "x-python-gapic-namespace=acme.books", "old-python-gapic-name=library_legacy",
+             "my-python-gapic-templates=ads-templates", "x-python-gapic-transport=rest", "no-python-gapic-metadata",
+             "xpython-gapic-old-naming", "a-python-gapic-warehouse-package-name=zz", "z-python-gapic-retry-config=/nonexistent.json",
+             "z-python-gapic-service-yaml=/nonexistent.yaml", "q-python-gapic-lazy-import", "q-python-gapic-add-iam-methods",
+             "q-python-gapic-autogen-snippets=false", "q-python-gapic-rest-numeric-enums", "q-python-gapic-proto-plus-deps=a.b",
+             "q-python-gapic-samples=/nonexistent", "_python-gapic-name=under", "go-python-gapic-python-gapic-name=twice"]
 BAD = ["foo=a=b", "Mx.proto=pkg=alias", "transport=a=b", "python-gapic-name=a=b", "a==", "==="]
 
 
@@ -54,6 +61,8 @@ def gen_option_items(r, allow_bad=True, files=None):
             it = r.choice(PREFIXED)
         elif k < 0.62 and files:
             it = r.choice(files)
+        elif k < 0.70:
+            it = r.choice(MIDMARKER)
         elif k < 0.93 or not allow_bad:
             it = r.choice(UNKNOWN)
         else:
@@ -284,7 +293,7 @@ def build_checks(ctx, cases):
 def run_pure(ctx):
     of = option_files()
     strings = [",".join(gen_option_items(env.rng("C11-opt", i), files=list(of))) for i in range(ctx.n(120, 1500))]
-    strings += KNOWN + PREFIXED + UNKNOWN + BAD + ["metadata,foo=a=b", "a=b,transport=rest", ",,", " , "]
+    strings += KNOWN + PREFIXED + UNKNOWN + BAD + MIDMARKER + ["python-gapic-name=shelf," + m for m in MIDMARKER[:4]] + [m + "," + m for m in MIDMARKER[:3]] + ["metadata,foo=a=b", "a=b,transport=rest", ",,", " , "]
     checks = option_checks(ctx, strings)
     checks += naming_checks(ctx, [gen_naming_case(env.rng("C11-naming", i)) for i in range(ctx.n(150, 2000))])
     tpls = U.list_templates("templates") + U.list_templates("ads-templates")
@@ -323,6 +332,7 @@ E2E_OVERRIDES = [("python-gapic-name=my_lib", "name", "my_lib"), ("python-gapic-
 E2E_UNKNOWN = ["foo", "foo=bar", "paths=source_relative", "Mgoogle/api/x.proto=pkg", "go-gapic-package=a;b", "x y", "FOO=1", "Metadata",
                "python-gapic-bogus=1", "plugins=grpc", "", "foo=a=b", "Mx.proto=pkg=alias", "k==", "a=b=c=d"]
 E2E_BAD_UNKNOWN = ["foo=a=b", "Mx.proto=pkg=alias"]
+E2E_MIDMARKER = [m for m in MIDMARKER if "nonexistent" not in m]
 
 
 def gen_request(r, defect=None):
@@ -442,6 +452,16 @@ def gen_request(r, defect=None):
         params = [p for p in params if opt_key(p) not in ("autogen-snippets", "old-naming") and not p.startswith("python-gapic-templates")]
         params += ["python-gapic-templates=ads-templates", r.choice(["old-naming", "autogen-snippets=false"])]
     r.shuffle(params)
+    if defect == "midmarker" or r.random() < 0.1:
+        # alone, after a genuine option of the same name, repeated
+        m = r.choice(E2E_MIDMARKER)
+        k = r.random()
+        if k < 0.35:
+            params.append(m)
+        elif k < 0.7:
+            params = [p for p in params if not p.startswith("python-gapic-name")] + ["python-gapic-name=my_lib", r.choice(E2E_MIDMARKER[:3] + [m])]
+        else:
+            params += [m, r.choice(E2E_MIDMARKER), m]
     yaml = None
     if r.random() < 0.1 and ver and not ads:
         yaml = {"type": "google.api.Service", "config_version": 3, "name": "files.example.com",
@@ -845,6 +865,7 @@ def run(ctx):
     cases += [c for c in (make_case("C11-e2e-reserved", i, "reserved") for i in range(ctx.n(3, 30))) if c]
     cases += [c for c in (make_case("C11-e2e-casepair", i, "casepair") for i in range(ctx.n(1, 6))) if c]
     cases += [c for c in (make_case("C11-e2e-siblings", i, "siblings") for i in range(ctx.n(1, 8))) if c]
+    cases += [c for c in (make_case("C11-e2e-midmarker", i, "midmarker") for i in range(ctx.n(3, 16))) if c]
     checks = run_e2e(ctx, cases)
     eval_e2e(ctx, checks, "c11e2e", len(cases))
     seqs = load_corpus_sequences() + [q for q in (make_sequence("C11-seq", i) for i in range(ctx.n(2, 24))) if q]
